@@ -302,6 +302,8 @@ pub struct Inner {
     pub running_jobs: Vec<u64>,
     pub jobs_in_flight: u64,
     pub buggify_ctr: u64,
+    /// the blob file synced last by each operation (client, uid)
+    pub blob_sync_by_op: BTreeMap<(u32, u32), usize>,
     pub stall_job: Option<(u64, u64)>,
     // outputs
     pub violations: Vec<Violation>,
@@ -363,6 +365,7 @@ impl World {
                 running_jobs: Vec::new(),
                 jobs_in_flight: 0,
                 buggify_ctr: 0,
+                blob_sync_by_op: BTreeMap::new(),
                 stall_job: None,
                 violations: Vec::new(),
                 probes: Counters::default(),
@@ -810,7 +813,7 @@ impl SimHooks for World {
                 let existed_live = w.shadows.get(&name).map(|s| !s.removed && !s.quarantined).unwrap_or(false);
                 if w.ids_seen.contains(&id) {
                     let cause = if existed_live { "create over an existing blob file" } else { "blob id reused after quarantine" };
-                    let v = Violation::new("C07", "C07.id-reuse", cause, format!("blob id {} created again (ids ever seen: {:?})", id, w.ids_seen));
+                    let v = Violation::new("C07,C03", "C07.id-reuse", cause, format!("blob id {} created again (ids ever seen: {:?})", id, w.ids_seen));
                     w.violations.push(v);
                 }
                 w.ids_seen.insert(id);
@@ -1085,6 +1088,9 @@ impl SimHooks for World {
         let track = w.track_durable;
         let len = w.shadows.get(&name).map(|s| s.content.len() as u64).unwrap_or(0);
         let seq = w.push_event("sync", &name, 0, len, 0);
+        if let (FileKind::Blob(id), Some(t)) = (classify(&name), w.eff_tag()) {
+            w.blob_sync_by_op.insert((t.client, t.uid), id);
+        }
         if let Some(sh) = w.shadows.get_mut(&name) {
             sh.synced_len = sh.content.len() as u64;
             sh.syncs += 1;
@@ -1194,6 +1200,18 @@ impl SimHooks for World {
             w.probes.bump("closure_preempted_at_io_call");
         }
         y
+    }
+
+    fn job_preempt_delay(&self, token: u64) -> Duration {
+        // mostly one scheduler round; sometimes long enough for other operations to complete
+        // (and be acknowledged) while this closure sits between two of its file operations
+        let w = self.inner.borrow();
+        let r = mix_all(&[w.sched.seed, 6, token, w.buggify_ctr]);
+        match r % 8 {
+            0 => Duration::from_millis(1 + (r >> 8) % 4),
+            1 => Duration::from_micros(100 + (r >> 8) % 900),
+            _ => Duration::ZERO,
+        }
     }
 
     fn job_call(&self, token: u64, begin: bool) {
